@@ -179,7 +179,8 @@ def execute(c):
         if kinds[0] == "box":
             fam_geobox = op.startswith("geobox") or op in ("overlap_roi", "snap_to")
             if fam_geobox:
-                boxes = [GeoBox((3, 4), Affine(1, 0, i, 0, -1, 5 + i), crs) for i, crs in enumerate(crss)]
+                sh = 0 if c.get("sg") else 1
+                boxes = [GeoBox((3, 4), Affine(1, 0, i * sh, 0, -1, 5 + i * sh), crs) for i, crs in enumerate(crss)]
                 raw = [GeoBox(b.shape, b.affine, None) for b in boxes]
                 fns = {"geobox_or": lambda b: b[0] | b[1], "geobox_and": lambda b: b[0] & b[1], "overlap_roi": lambda b: b[0].overlap_roi(b[1]),
                        "snap_to": lambda b: b[0].snap_to(b[1]), "geobox_union_conservative": geobox_union_conservative,
@@ -194,7 +195,8 @@ def execute(c):
                     ev["shp"] = soc
                     return ev
                 return finish(oc, val, soc, sval, crss[0])
-            bbs = [G.BoundingBox(i, i, 4 + i, 5 + i, crs) for i, crs in enumerate(crss)]
+            sh = 0 if c.get("sg") else 1
+            bbs = [G.BoundingBox(i * sh, i * sh, 4 + i * sh, 5 + i * sh, crs) for i, crs in enumerate(crss)]
             raw = [G.BoundingBox(*b.bbox, None) for b in bbs]
             fns = {"bbox_union": G.bbox_union, "bbox_intersection": G.bbox_intersection, "bbox_or": lambda b: b[0] | b[1], "bbox_and": lambda b: b[0] & b[1]}
             oc, val = _outcome(lambda: fns[op](bbs))
